@@ -154,7 +154,11 @@ type builderOp struct {
 }
 
 func c12Builder(fn string, ops []builderOp) (string, string) {
+	// half of the cases recycle one long-lived builder with Clear(), as a node's tx-building code does
 	b := txDataBuilder.NewBuilder()
+	if len(ops)%2 == 1 || len(fn)%2 == 1 {
+		b = sharedBuilder.Clear()
+	}
 	b.Func(fn)
 	var want [][]byte
 	for _, op := range ops {
@@ -213,6 +217,7 @@ func c12Builder(fn string, ops []builderOp) (string, string) {
 var sharedCallParser = parsers.NewCallArgsParser()
 var sharedDeployParser = parsers.NewDeployArgsParser()
 var sharedStorageParser = parsers.NewStorageUpdatesParser()
+var sharedBuilder = txDataBuilder.NewBuilder()
 
 func c12CallRoundTrip(fn string, args [][]byte) (string, string) {
 	s := TxEncode(fn, args)
